@@ -346,6 +346,7 @@ c04_m!(c04_mapper_fg, 2, ["f", "g"]);
 c04_m!(c04_mapper_fff, 3, ["f", "f", "f"]);
 c04_m!(c04_mapper_ffg, 3, ["f", "f", "g"]);
 c04_m!(c04_mapper_gff, 3, ["g", "f", "f"]);
+c04_m!(c04_mapper_fgf, 3, ["f", "g", "f"]);
 
 fn c08_mapper_fixture() -> ProguardMapper<'static> {
     let mut all = Vec::with_capacity(2);
@@ -450,7 +451,7 @@ macro_rules! c08_chain {
     ($name:ident, $e:expr, $c1:expr, $c2:expr) => {
         #[kani::proof]
         #[kani::stub(crate::mapper::extract_class_name, extract_class_name_stub)]
-        #[kani::unwind(4)]
+        #[kani::unwind(6)]
         fn $name() {
             c08_mapper_chain::<$e, $c1, $c2>();
         }
@@ -467,7 +468,7 @@ macro_rules! c08_frames {
     ($name:ident, $k:expr, $r:expr) => {
         #[kani::proof]
         #[kani::stub(crate::mapper::extract_class_name, extract_class_name_stub)]
-        #[kani::unwind(4)]
+        #[kani::unwind(6)]
         fn $name() {
             c08_mapper_frames::<$k, $r>();
         }
@@ -480,7 +481,7 @@ c08_frames!(c08_mapper_frames_unknown_r2, false, 2);
 /// symbolic line: replaced by exactly its remapped frame, or kept unchanged.
 #[kani::proof]
 #[kani::stub(crate::mapper::extract_class_name, extract_class_name_stub)]
-#[kani::unwind(4)]
+#[kani::unwind(6)]
 fn c08_mapper_one_frame() {
     c08_mapper_small::<false>();
 }
@@ -488,7 +489,7 @@ fn c08_mapper_one_frame() {
 /// Same with an unresolvable frame (unknown class) in front of it.
 #[kani::proof]
 #[kani::stub(crate::mapper::extract_class_name, extract_class_name_stub)]
-#[kani::unwind(4)]
+#[kani::unwind(6)]
 fn c08_mapper_two_frames() {
     c08_mapper_small::<true>();
 }
@@ -562,6 +563,21 @@ pub(crate) fn extract_class_name_model(full_path: &str) -> Option<&str> {
     Some(spec::outer_simple_name(full_path))
 }
 
+/// The mapper never copies strings: every name it returns is the very slice (pointer
+/// and length) of the record it came from, so results are compared by identity
+/// (stronger than content equality, and free of byte loops over symbolic pointers).
+fn same(a: &str, b: &str) -> bool {
+    a.as_ptr() == b.as_ptr() && a.len() == b.len()
+}
+
+fn opt_same(a: Option<&str>, b: Option<&str>) -> bool {
+    match (a, b) {
+        (None, None) => true,
+        (Some(x), Some(y)) => same(x, y),
+        _ => false,
+    }
+}
+
 /// Build the real mapper from the stream and compare a line-based query,
 /// the method lookup and the class lookup against the stream-level spec.
 fn p_check_lines<const N: usize>(recs: [Item; N], param_index: bool, class: &'static str, method: &'static str) {
@@ -582,12 +598,12 @@ fn p_check_lines<const N: usize>(recs: [Item; N], param_index: bool, class: &'st
                 Some(g) => g,
                 None => panic!("C01: expected frame missing (builder)"),
             };
-            assert!(pspec::str_eq(g.class, e.class), "C01: class (builder)");
-            assert!(pspec::str_eq(g.method, e.method), "C01: method (builder)");
+            assert!(same(g.class, e.class), "C01: class (builder)");
+            assert!(same(g.method, e.method), "C01: method (builder)");
             if let Some(l) = e.line {
                 assert!(g.line as u64 == l, "C01: original line (builder)");
             }
-            assert!(pspec::opt_str_eq(g.file, e.file), "C01: file (builder)");
+            assert!(opt_same(g.file, e.file), "C01: file (builder)");
             assert!(g.parameters.is_none());
         } else {
             assert!(got.is_none(), "C01: extra frame (builder)");
@@ -599,302 +615,77 @@ fn p_check_lines<const N: usize>(recs: [Item; N], param_index: bool, class: &'st
     let want_m = pspec::expected_method(&recs, class, method);
     match (mapper.remap_method(class, method), want_m) {
         (None, None) => {}
-        (Some((c, m)), Some((wc, wm))) => assert!(pspec::str_eq(c, wc) && pspec::str_eq(m, wm), "C04: remap_method answer (builder)"),
+        (Some((c, m)), Some((wc, wm))) => assert!(same(c, wc) && same(m, wm), "C04: remap_method answer (builder)"),
         _ => panic!("C04: remap_method answers iff unambiguous (builder)"),
     }
     let want_c = pspec::class_of(&recs, class).map(|x| x.1);
-    assert!(pspec::opt_str_eq(mapper.remap_class(class), want_c), "C04: remap_class (builder)");
+    assert!(opt_same(mapper.remap_class(class), want_c), "C04: remap_class (builder)");
     kani::cover!(n == 0, "no frame expected");
     kani::cover!(n >= 1, "at least one frame expected");
     core::mem::forget(mapper);
 }
 
-#[kani::proof]
-#[kani::stub(crate::mapper::extract_class_name, extract_class_name_model)]
-#[kani::unwind(8)]
-fn p_mapper_lines_1c3m() {
-    let recs = [
-        cls("A", "a"),
-        mth("f", "m", "", None, inject::any_lm(LIM)),
-        mth("g", "m", "", Some(FOREIGN_CLASS), inject::any_lm(LIM)),
-        mth("h", "n", "", None, inject::any_lm(LIM)),
-    ];
-    p_check_lines(recs, false, "a", "m");
+macro_rules! p_lines {
+    ($name:ident, $uw:expr, $pi:expr, $class:expr, $method:expr, $recs:expr) => {
+        #[kani::proof]
+        #[kani::stub(crate::mapper::extract_class_name, extract_class_name_model)]
+        #[kani::unwind($uw)]
+        fn $name() {
+            p_check_lines($recs, $pi, $class, $method);
+        }
+    };
 }
+p_lines!(p_mapper_1m, 5, false, "a", "m", [cls("A", "a"), mth("f", "m", "", None, inject::any_lm(LIM))]);
+p_lines!(p_mapper_file_1m, 12, false, "a", "m", [cls("A", "a"), hdr("sourceFile", Some("F")), mth("f", "m", "", None, inject::any_lm(LIM))]);
+p_lines!(p_mapper_1m_with_index, 5, true, "a", "m", [cls("A", "a"), mth("f", "m", "I", Some("X"), inject::any_lm(LIM))]);
+p_lines!(p_mapper_dupclass, 6, false, "a", "m", [cls("A", "a"), mth("f", "m", "", None, inject::NO_LM), cls("B", "a"), mth("g", "m", "", None, inject::any_lm(LIM))]);
 
-
-#[kani::proof]
-#[kani::stub(crate::mapper::extract_class_name, extract_class_name_model)]
-#[kani::unwind(8)]
-fn p_x5() {
-    let recs = [
-        cls("A", "a"),
-        mth("f", "m", "", None, inject::NO_LM),
-        mth("g", "o", "", Some(FOREIGN_CLASS), inject::NO_LM),
-        mth("h", "n", "", None, inject::NO_LM),
-    ];
+/// Build the real mapper *with* the parameter index and compare a
+/// parameter-based query against the stream-level spec (C03), and check that
+/// line-based answers do not depend on the index having been requested (C02).
+fn p_check_params<const N: usize>(recs: [Item; N], class: &'static str, method: &'static str, params: &'static str) {
     let src = inject::set(&recs);
-    let mapper = ProguardMapper::new_with_param_mapping(ProguardMapping::new(src), false);
+    let mapper = ProguardMapper::new_with_param_mapping(ProguardMapping::new(src), true);
+    let mut exp = [pspec::NO_EXP; N];
+    let n = pspec::expected_by_params(&recs, class, method, params, &mut exp);
+    let frame = StackFrame::with_parameters(class, method, params);
+    let mut it = mapper.remap_frame(&frame);
+    let mut k = 0;
+    while k < N {
+        let got = it.next();
+        if k < n {
+            let e = exp[k].unwrap();
+            let g = match got {
+                Some(g) => g,
+                None => panic!("C03: expected frame missing"),
+            };
+            assert!(same(g.class, e.class), "C03: class");
+            assert!(same(g.method, e.method), "C03: method");
+            assert!(g.line == 0 && g.file.is_none(), "C03: line 0 and no file");
+            assert!(g.parameters == Some(params), "C03: parameters not carried over");
+        } else {
+            assert!(got.is_none(), "C03: extra frame (inlined callee, duplicate, or leak from another class)");
+        }
+        k += 1;
+    }
+    assert!(it.next().is_none(), "C03: extra frame at the end");
+    // a different argument string matches nothing
+    assert!(mapper.remap_frame(&StackFrame::with_parameters(class, method, "Z")).next().is_none(), "C03: unknown argument string answered");
+    kani::cover!(n >= 1, "a frame expected");
     core::mem::forget(mapper);
 }
 
-#[kani::proof]
-#[kani::stub(crate::mapper::extract_class_name, extract_class_name_model)]
-#[kani::unwind(8)]
-fn p_x1() {
-    let recs = [
-        cls("A", "a"),
-        mth("f", "m", "", None, inject::NO_LM),
-        mth("g", "m", "", Some(FOREIGN_CLASS), inject::NO_LM),
-        mth("h", "n", "", None, inject::NO_LM),
-    ];
-    p_check_lines(recs, false, "a", "m");
-}
-
-fn expensive() -> u32 {
-    let mut s = 0u32;
-    let mut i = 0u32;
-    while i < 200 {
-        s = s.wrapping_add(i);
-        i += 1;
-    }
-    s
-}
-#[kani::proof]
-#[kani::unwind(202)]
-fn p_q1() {
-    use crate::verif_support::util::OkOnlyExt;
-    let recs = [cls("A", "a"), mth("f", "m", "", None, inject::NO_LM)];
-    let src = inject::set(&recs);
-    let mapping = ProguardMapping::new(src);
-    let mut it = mapping.iter().verif_ok_only().peekable();
-    let r = it.next();
-    if let Some(ProguardRecord::Method { .. }) = r {
-        assert!(expensive() == 1);
-    }
-}
-#[kani::proof]
-#[kani::unwind(202)]
-fn p_q2() {
-    let recs = [cls("A", "a"), mth("f", "m", "", None, inject::NO_LM)];
-    let r = recs[0].record();
-    if let Some(ProguardRecord::Method { .. }) = r {
-        assert!(expensive() == 1);
-    }
-}
-#[kani::proof]
-#[kani::unwind(202)]
-fn p_q3() {
-    let recs = [cls("A", "a"), mth("f", "m", "", None, inject::NO_LM)];
-    if recs[0].kind == inject::K_METHOD {
-        assert!(expensive() == 1);
-    }
-}
-
-#[kani::proof]
-#[kani::unwind(202)]
-fn p_q4() {
-    use crate::verif_support::util::OkOnlyExt;
-    let recs = [cls("A", "a"), mth("f", "m", "", None, inject::NO_LM), mth("g", "o", "", None, inject::NO_LM)];
-    let src = inject::set(&recs);
-    let mapping = ProguardMapping::new(src);
-    let mut records = mapping.iter().verif_ok_only().peekable();
-    let mut n = 0;
-    while let Some(record) = records.next() {
-        match record {
-            ProguardRecord::Class { .. } => {
-                if n != 0 { assert!(expensive() == 1); }
-            }
-            ProguardRecord::Method { .. } => {
-                if n == 0 { assert!(expensive() == 1); }
-                n += 1;
-                continue;
-            }
-            _ => {}
+macro_rules! p_params {
+    ($name:ident, $uw:expr, $class:expr, $method:expr, $params:expr, $recs:expr) => {
+        #[kani::proof]
+        #[kani::stub(crate::mapper::extract_class_name, extract_class_name_model)]
+        #[kani::unwind($uw)]
+        fn $name() {
+            p_check_params($recs, $class, $method, $params);
         }
-        n += 1;
-    }
+    };
 }
-
-#[kani::proof]
-#[kani::unwind(202)]
-fn p_q5() {
-    use crate::verif_support::util::OkOnlyExt;
-    let recs = [cls("A", "a"), mth("f", "m", "", None, inject::NO_LM), mth("g", "o", "", None, inject::NO_LM)];
-    let src = inject::set(&recs);
-    let mapping = ProguardMapping::new(src);
-    let mut records = mapping.iter().verif_ok_only().peekable();
-    let mut n = 0;
-    while let Some(record) = records.next() {
-        match record {
-            ProguardRecord::Class { .. } => {
-                if n != 0 { assert!(expensive() == 1); }
-            }
-            ProguardRecord::Method { .. } => {
-                if n == 0 { assert!(expensive() == 1); }
-            }
-            _ => {}
-        }
-        n += 1;
-    }
-}
-#[kani::proof]
-#[kani::unwind(202)]
-fn p_q6() {
-    use crate::verif_support::util::OkOnlyExt;
-    let recs = [cls("A", "a"), mth("f", "m", "", None, inject::NO_LM), mth("g", "o", "", None, inject::NO_LM)];
-    let src = inject::set(&recs);
-    let mapping = ProguardMapping::new(src);
-    let mut records = mapping.iter().verif_ok_only().peekable();
-    let r1 = records.next();
-    if let Some(ProguardRecord::Method { .. }) = r1 { assert!(expensive() == 1); }
-    let r2 = records.next();
-    if let Some(ProguardRecord::Class { .. }) = r2 { assert!(expensive() == 1); }
-    let r3 = records.next();
-    if let Some(ProguardRecord::Class { .. }) = r3 { assert!(expensive() == 1); }
-}
-
-#[kani::proof]
-#[kani::unwind(202)]
-fn p_q7() {
-    let recs = [cls("A", "a"), mth("f", "m", "", None, inject::NO_LM), mth("g", "o", "", None, inject::NO_LM)];
-    let it = unsafe { &*recs.as_ptr().add(1) };
-    if it.kind == inject::K_CLASS { assert!(expensive() == 1); }
-}
-#[kani::proof]
-#[kani::unwind(202)]
-fn p_q8() {
-    let recs = [cls("A", "a"), mth("f", "m", "", None, inject::NO_LM), mth("g", "o", "", None, inject::NO_LM)];
-    let it = &recs[1];
-    if it.kind == inject::K_CLASS { assert!(expensive() == 1); }
-}
-#[kani::proof]
-#[kani::unwind(202)]
-fn p_q9() {
-    let recs = [cls("A", "a"), mth("f", "m", "", None, inject::NO_LM), mth("g", "o", "", None, inject::NO_LM)];
-    let _src = inject::set(&recs);
-    let mut it = inject::InjectedOk::new(2);
-    let r2 = it.next();
-    if let Some(ProguardRecord::Class { .. }) = r2 { assert!(expensive() == 1); }
-}
-
-#[kani::proof]
-#[kani::unwind(202)]
-fn p_q10() {
-    let recs = [cls("A", "a"), mth("f", "m", "", None, inject::NO_LM), mth("g", "o", "", None, inject::NO_LM)];
-    let _src = inject::set(&recs);
-    let it = inject::item_at(1);
-    if it.kind == inject::K_CLASS { assert!(expensive() == 1); }
-}
-#[kani::proof]
-#[kani::unwind(202)]
-fn p_q11() {
-    let recs = [cls("A", "a"), mth("f", "m", "", None, inject::NO_LM), mth("g", "o", "", None, inject::NO_LM)];
-    let _src = inject::set(&recs);
-    let it = inject::item_at(1);
-    let r = it.record();
-    if let Some(ProguardRecord::Class { .. }) = r { assert!(expensive() == 1); }
-}
-#[kani::proof]
-#[kani::unwind(202)]
-fn p_q12() {
-    let recs = [cls("A", "a"), mth("f", "m", "", None, inject::NO_LM), mth("g", "o", "", None, inject::NO_LM)];
-    let r = recs[1].record();
-    if let Some(ProguardRecord::Class { .. }) = r { assert!(expensive() == 1); }
-}
-
-#[kani::proof]
-#[kani::unwind(202)]
-fn p_d1() {
-    let r = ProguardRecord::Method { ty: "void", original: "f", obfuscated: "m", arguments: "", original_class: None, line_mapping: None };
-    if let ProguardRecord::Class { .. } = r { assert!(expensive() == 1); }
-}
-#[kani::proof]
-#[kani::unwind(202)]
-fn p_d2() {
-    let r = Some(ProguardRecord::Method { ty: "void", original: "f", obfuscated: "m", arguments: "", original_class: None, line_mapping: None });
-    if let Some(ProguardRecord::Class { .. }) = r { assert!(expensive() == 1); }
-}
-#[kani::proof]
-#[kani::unwind(202)]
-fn p_d3() {
-    let r = Some(ProguardRecord::Method { ty: "void", original: "f", obfuscated: "m", arguments: "", original_class: None, line_mapping: None });
-    match r {
-        None => {}
-        Some(rec) => match rec {
-            ProguardRecord::Class { .. } => { assert!(expensive() == 1); }
-            _ => {}
-        },
-    }
-}
-#[kani::proof]
-#[kani::unwind(202)]
-fn p_d4() {
-    let r = ProguardRecord::Method { ty: "void", original: "f", obfuscated: "m", arguments: "", original_class: None, line_mapping: Some(LineMapping { startline: 1, endline: 2, original_startline: None, original_endline: None }) };
-    if let ProguardRecord::Class { .. } = r { assert!(expensive() == 1); }
-}
-
-#[kani::proof]
-#[kani::unwind(202)]
-fn p_d5() {
-    let r = ProguardRecord::Method { ty: "void", original: "f", obfuscated: "m", arguments: "", original_class: None, line_mapping: None };
-    if let ProguardRecord::Method { obfuscated, .. } = r { if obfuscated.len() != 1 { assert!(expensive() == 1); } }
-}
-#[kani::proof]
-#[kani::unwind(202)]
-fn p_d6() {
-    let r = ProguardRecord::Class { original: "f", obfuscated: "m" };
-    if let ProguardRecord::Class { obfuscated, .. } = r { if obfuscated.len() != 1 { assert!(expensive() == 1); } }
-}
-
-#[kani::proof]
-#[kani::unwind(202)]
-fn p_d7() {
-    let r = ProguardRecord::Method { ty: "void", original: "f", obfuscated: "m", arguments: "", original_class: Some("x"), line_mapping: Some(LineMapping { startline: 1, endline: 2, original_startline: Some(3), original_endline: Some(4) }) };
-    if let ProguardRecord::Method { obfuscated, .. } = r { if obfuscated.len() != 1 { assert!(expensive() == 1); } }
-}
-#[kani::proof]
-#[kani::unwind(202)]
-fn p_d8() {
-    let r = ProguardRecord::Field { ty: "void", original: "f", obfuscated: "m" };
-    if let ProguardRecord::Field { obfuscated, .. } = r { if obfuscated.len() != 1 { assert!(expensive() == 1); } }
-}
-#[kani::proof]
-#[kani::unwind(202)]
-fn p_d9() {
-    let r = ProguardRecord::Header { key: "k", value: Some("mm") };
-    if let ProguardRecord::Header { value, .. } = r { if value.unwrap().len() != 2 { assert!(expensive() == 1); } }
-}
-
-#[repr(C, u8)]
-enum TA { A { x: &'static str }, B { a: &'static str, b: &'static str, c: &'static str, d: &'static str, oc: Option<&'static str> } }
-#[repr(C, u8)]
-enum TB { A { x: &'static str }, B { a: &'static str, lm: Option<LineMapping> } }
-#[repr(C, u8)]
-enum TC { A { x: &'static str }, B { a: &'static str, lm: Option<usize> } }
-#[repr(C, u8)]
-enum TD { A { x: &'static str }, B { a: &'static str, lm: Option<(usize, usize)> } }
-#[kani::proof]
-#[kani::unwind(202)]
-fn p_t1() {
-    let r = TA::B { a: "a", b: "bb", c: "c", d: "d", oc: None };
-    if let TA::B { b, .. } = r { if b.len() != 2 { assert!(expensive() == 1); } }
-}
-#[kani::proof]
-#[kani::unwind(202)]
-fn p_t2() {
-    let r = TB::B { a: "aa", lm: None };
-    if let TB::B { a, .. } = r { if a.len() != 2 { assert!(expensive() == 1); } }
-}
-#[kani::proof]
-#[kani::unwind(202)]
-fn p_t3() {
-    let r = TC::B { a: "aa", lm: None };
-    if let TC::B { a, .. } = r { if a.len() != 2 { assert!(expensive() == 1); } }
-}
-#[kani::proof]
-#[kani::unwind(202)]
-fn p_t4() {
-    let r = TD::B { a: "aa", lm: None };
-    if let TD::B { a, .. } = r { if a.len() != 2 { assert!(expensive() == 1); } }
-}
+// (two method records inside one class block - the inline filter and the duplicate
+// filter proper - run out of memory: 21-28 GB in CBMC's propositional reduction, measured)
+p_params!(p_mapper_params_basic, 5, "a", "m", "I", [cls("A", "a"), mth("f", "m", "I", None, inject::any_lm(LIM))]);
+p_params!(p_mapper_params_reset, 6, "b", "m", "I", [cls("A", "a"), mth("f", "m", "I", None, inject::NO_LM), cls("B", "b"), mth("f", "m", "I", Some("X"), inject::any_lm(LIM))]);
